@@ -9,12 +9,15 @@
 
 /* ---- provided by mx_wraps.c ---- */
 extern int mx_actor;                 /* which entropy stream psGetEntropy serves */
+extern int mx_in_lib;                /* >0 while a library API call made through the harness is in progress (failpoints arm on it) */
 extern long mx_now;                  /* virtual clock, seconds */
 extern unsigned long mx_entropy_calls, mx_entropy_bytes;
 void mx_entropy_seed(uint64_t seed); /* reset all actor streams from a seed */
 void mx_entropy_save(uint64_t out[8]);
 void mx_entropy_restore(const uint64_t in[8]);
 
+#define MX_ENTER() (mx_in_lib++)
+#define MX_LEAVE() (mx_in_lib--)
 #define MX_CLIENT 0
 #define MX_SERVER 1
 
@@ -151,14 +154,14 @@ static int mx_process_rc(mx_ep *e, int rc, unsigned char *pt, uint32 ptl)
             e->nApp++; e->appBytes += ptl;
             if (e->on_app) e->on_app(e, pt, ptl);
             mx_got_append(e, pt, ptl);
-            mx_actor = e->id; e->calls++;
-            rc = matrixSslProcessedData(e->ssl, &pt, &ptl);
+            mx_actor = e->id; e->calls++; MX_ENTER();
+            rc = matrixSslProcessedData(e->ssl, &pt, &ptl); MX_LEAVE();
             continue;
         }
         if (rc == MATRIXSSL_RECEIVED_ALERT) {
             e->nAlertIn++; if (ptl >= 2) { e->alertLevel = pt[0]; e->alertDesc = pt[1]; }
-            mx_actor = e->id; e->calls++;
-            rc = matrixSslProcessedData(e->ssl, &pt, &ptl);
+            mx_actor = e->id; e->calls++; MX_ENTER();
+            rc = matrixSslProcessedData(e->ssl, &pt, &ptl); MX_LEAVE();
             continue;
         }
         if (rc == MATRIXSSL_HANDSHAKE_COMPLETE) e->hsDone = 1;
@@ -176,15 +179,15 @@ static int mx_feed_chunked(mx_ep *e, const unsigned char *d, int len, int chunk)
     int off = 0, rc = 0;
     while (off < len) {
         unsigned char *rb; unsigned char *pt = NULL; uint32 ptl = 0;
-        mx_actor = e->id; e->calls++;
-        int n = matrixSslGetReadbuf(e->ssl, &rb);
+        mx_actor = e->id; e->calls++; MX_ENTER();
+        int n = matrixSslGetReadbuf(e->ssl, &rb); MX_LEAVE();
         if (n <= 0) { e->dead = 1; e->lastrc = n; return n ? n : -1; }
         if (n > len - off) n = len - off;
         if (chunk > 0 && n > chunk) n = chunk;
         memcpy(rb, d + off, n); off += n;
-        mx_actor = e->id; e->calls++;
+        mx_actor = e->id; e->calls++; MX_ENTER();
         e->wantTake = 1;
-        rc = matrixSslReceivedData(e->ssl, n, &pt, &ptl);
+        rc = matrixSslReceivedData(e->ssl, n, &pt, &ptl); MX_LEAVE();
         rc = mx_process_rc(e, rc, pt, ptl);
         if (rc < 0) return rc;
     }
@@ -201,12 +204,12 @@ static int mx_take(mx_ep *e, unsigned char **out)
         /* DTLS: a GetOutdata call on an endpoint with nothing queued means "timeout: resend the flight";
            only the call that acknowledges a completed flight (flightDone) is made, like the reference apps */
         if (MX_IS_DTLS(e->ver) && e->ssl->outlen == 0 && !e->ssl->flightDone) break;
-        mx_actor = e->id; e->calls++;
-        int n = MX_IS_DTLS(e->ver) ? matrixDtlsGetOutdata(e->ssl, &ob) : matrixSslGetOutdata(e->ssl, &ob);
+        mx_actor = e->id; e->calls++; MX_ENTER();
+        int n = MX_IS_DTLS(e->ver) ? matrixDtlsGetOutdata(e->ssl, &ob) : matrixSslGetOutdata(e->ssl, &ob); MX_LEAVE();
         if (n <= 0) { if (n < 0) { e->dead = 1; e->lastrc = n; } break; }
         buf = realloc(buf, tot + n + 1); memcpy(buf + tot, ob, n); tot += n;
-        mx_actor = e->id; e->calls++;
-        int rc = MX_IS_DTLS(e->ver) ? matrixDtlsSentData(e->ssl, n) : matrixSslSentData(e->ssl, n);
+        mx_actor = e->id; e->calls++; MX_ENTER();
+        int rc = MX_IS_DTLS(e->ver) ? matrixDtlsSentData(e->ssl, n) : matrixSslSentData(e->ssl, n); MX_LEAVE();
         if (rc == MATRIXSSL_HANDSHAKE_COMPLETE) e->hsDone = 1;
         else if (rc == MATRIXSSL_REQUEST_CLOSE) e->closeReq = 1;
         else if (rc < 0) { e->dead = 1; e->lastrc = rc; break; }
@@ -218,8 +221,9 @@ static int mx_take(mx_ep *e, unsigned char **out)
 }
 static int mx_send(mx_ep *e, const unsigned char *d, int len)
 {
-    mx_actor = e->id; e->calls++; e->wantTake = 1;
-    return matrixSslEncodeToOutdata(e->ssl, (unsigned char *) d, len);
+    mx_actor = e->id; e->calls++; e->wantTake = 1; MX_ENTER();
+    int rc_ = matrixSslEncodeToOutdata(e->ssl, (unsigned char *) d, len); MX_LEAVE();
+    return rc_;
 }
 
 /* ---- session construction ---- */
@@ -271,8 +275,9 @@ static int mx_new_server(mx_ep *e, const mx_cfg *c)
 {
     sslSessOpts_t o; mx_opts(&o, c, MX_SERVER);
     memset(e, 0, sizeof *e); e->role = MX_SERVER; e->ver = c->ver; e->id = 1; e->name = "S";
-    mx_actor = e->id;
+    mx_actor = e->id; MX_ENTER();
     int rc = matrixSslNewServerSession(&e->ssl, mx_pick_skeys(c), c->clientAuth ? (c->strictCb ? mx_cert_cb_strict : mx_cert_cb_accept) : NULL, &o);
+    MX_LEAVE();
     return rc;
 }
 static int mx_new_client(mx_ep *e, const mx_cfg *c, sslSessionId_t *sid)
@@ -281,15 +286,16 @@ static int mx_new_client(mx_ep *e, const mx_cfg *c, sslSessionId_t *sid)
     memset(e, 0, sizeof *e); e->role = MX_CLIENT; e->ver = c->ver; e->id = 0; e->name = "C";
     psCipher16_t cs[1] = { c->suite };
     e->sid = sid;
-    mx_actor = e->id;
+    mx_actor = e->id; MX_ENTER();
     int rc = matrixSslNewClientSession(&e->ssl, mx_pick_ckeys(c), sid, c->suite ? cs : NULL, c->suite ? 1 : 0,
             c->noCallback ? NULL : (c->strictCb ? mx_cert_cb_strict : mx_cert_cb_accept), c->expectedName, NULL, NULL, &o);
+    MX_LEAVE();
     e->wantTake = 1;
     return rc < 0 ? rc : 0;
 }
 static void mx_ep_free(mx_ep *e)
 {
-    if (e->ssl) { matrixSslDeleteSession(e->ssl); e->ssl = NULL; }
+    if (e->ssl) { MX_ENTER(); matrixSslDeleteSession(e->ssl); MX_LEAVE(); e->ssl = NULL; }
     free(e->got); e->got = NULL; e->gotlen = e->gotcap = 0;
 }
 
